@@ -78,6 +78,10 @@ def norm(t):
             if d == {x: 1} and c == 0:
                 return x
             return mklin(c, d)
+        if is_tag(x, "call") and is_tag(x[1], "ext") and x[1][1] in RND_CALLS and len(x[2]) == 1 and not x[3]:
+            return ("rnd", RND_CALLS[x[1][1]], x[2][0])
+        if is_tag(x, "call") and is_tag(x[1], "attr") and x[1][2] == "astype" and len(x[2]) == 1 and not x[3] and x[2][0] in INT_TYPES:
+            return ("rnd", "trunc", x[1][1])
         return x
     return tmap(f, t)
 
@@ -178,6 +182,8 @@ def seq_len(E, facts):
             return None
     if is_tag(E, "call") and is_tag(E[1], "attr") and E[1][2] == "astype":
         return seq_len(E[1][1], facts)
+    if is_tag(E, "rnd"):
+        return seq_len(E[2], facts)
     if is_tag(E, "bin"):
         ls = [seq_len(x, facts) for x in (E[2], E[3]) if not facts.is_scalar(x)]
         if len(ls) == 1:
@@ -212,6 +218,10 @@ def length_of(t, facts):
         ls = [length_of(x, facts) for x in t[1:]]
         if all(x is not None for x in ls) and all(x == ls[0] for x in ls):
             return ls[0]
+        if all(x is not None for x in ls):
+            parts = [_lin_parts(x) for x in ls]
+            if all(d == parts[0][1] for _, d in parts):
+                return mklin(min(c for c, _ in parts), parts[0][1])      # zip stops at the shortest
         return None
     return t
 
@@ -259,6 +269,9 @@ def elt(E, i, facts):
         if x is None or E[2][0] not in INT_TYPES:
             return None
         return ("rnd", "trunc", x)
+    if is_tag(E, "rnd"):
+        x = elt(E[2], i, facts)
+        return None if x is None else ("rnd", E[1], x)
     if is_tag(E, "bin"):
         ops = []
         for x in (E[2], E[3]):
@@ -298,7 +311,7 @@ class Block:
         self.lv, self.blk = lv, blk
         self.F = F                                     # start of block number lv
         self.start = subst(F, lv, blk)
-        self.stop = subst(norm(subst(F, lv, norm(("bin", "Add", lv, const(1))))), lv, blk)
+        self.stop = subst(expand(norm(subst(F, lv, norm(("bin", "Add", lv, const(1))))), self.facts), lv, blk)
         self.n = None if ntasks is None else length_of(ntasks, self.facts)
         self.Fx = expand(F, self.facts)
         self.F0 = simp(expand(subst(F, lv, const(0)), self.facts), self.facts)
@@ -350,6 +363,10 @@ def simp(t, facts):
                 return b                    # numpy.linspace puts `stop` itself into the last element
         if is_tag(x, "rnd") and facts.is_int(x[2]):
             return x[2]
+        if is_tag(x, "rnd") and exact(x[2], facts):
+            rv = real_value(x[2])
+            if rv is not None and facts.is_int(rv):
+                return rv               # computed without rounding error and an integer: nothing is cut off
         if is_tag(x, "rnd") and x[1] == "round":
             # a product / quotient chain is within a few ulp of its exact value: rounding to nearest recovers an integer exact value
             # (magnitudes far below 2**52)
@@ -426,11 +443,32 @@ def real_value(t):
     return ("mono", str(c), tuple(sorted(d.items(), key=repr)))
 
 
+def exact(t, facts):
+    """is t computed without rounding error?  integers combined by + - * stay exact (far below 2**53); one correctly rounded division of exact
+    integers is exact when the quotient is an integer (the divisor cancels); everything computed from an inexact value is inexact"""
+    if facts.is_int(t) and not is_tag(t, "bin", "lin", "rnd"):
+        return True
+    if is_const(t):
+        return isinstance(t[2], int)
+    if is_tag(t, "lin"):
+        return all(exact(k, facts) and facts.is_int(k) for k, _ in t[2])
+    if is_tag(t, "bin") and t[1] in ("Add", "Sub", "Mult", "FloorDiv", "Mod"):
+        return all(exact(x, facts) and facts.is_int(x) for x in t[2:])
+    if is_tag(t, "bin") and t[1] == "Div":
+        if not all(exact(x, facts) and facts.is_int(x) for x in t[2:]):
+            return False
+        rv = real_value(t)
+        return rv is not None and facts.is_int(rv) and not is_tag(rv, "mono")
+    if is_tag(t, "rnd"):
+        return exact(t[2], facts)
+    return False
+
+
 def fragile(t, expected, facts):
     """t contains the truncation (floor / ceil / int) of a float value that reaches `expected` only in exact real arithmetic, through a true
     division by something that is not a constant -> text describing it, else None"""
     for x in subterms(t):
-        if is_tag(x, "rnd") and x[1] in ("trunc", "floor", "ceil") and not facts.is_int(x[2]):
+        if is_tag(x, "rnd") and x[1] in ("trunc", "floor", "ceil") and not facts.is_int(x[2]) and not exact(x[2], facts):
             divs = [y for y in subterms(x[2]) if is_tag(y, "bin") and y[1] == "Div" and not is_const(y[3])]
             if divs and real_value(subst(t, x, x[2])) == expected and real_value(x[2]) is not None:
                 return (f"{x[1]}({show(x[2])[:160]}) equals {show(expected)[:60]} only in exact arithmetic: the quotient {show(divs[0])[:80]} is rounded, the "
@@ -478,15 +516,18 @@ def monotone(t, k, facts):
 
 
 # ---------------------------------------------------------------------------------------------------------------- recognition
-def find_block(elem, lv):
+def find_block(elem, lv, processes=None):
     """elem: the generic task element (snapshot), lv: its index symbol.  -> (path of start, path of stop, F) where F is the start term as a
     function of lv and stop == F(lv + 1); None when the element holds no such pair"""
+    pos = [] if processes in (None, NONE) or is_const(processes) else [norm(processes)]
+    facts = Facts(pos_ints=pos)
+
     def walk(t, path):
         if is_tag(t, "tuple", "list"):
             els = t[1:]
             for i in range(len(els) - 1):
-                a, b = norm(els[i]), norm(els[i + 1])
-                if a != lv and contains(a, lv) and b == norm(subst(a, lv, norm(("bin", "Add", lv, const(1))))):
+                a, b = expand(norm(els[i]), facts), expand(norm(els[i + 1]), facts)
+                if a != lv and contains(a, lv) and b == expand(norm(subst(a, lv, norm(("bin", "Add", lv, const(1))))), facts):
                     return path + (i,), path + (i + 1,), a
             for i, e in enumerate(els):
                 r = walk(e, path + (i,))
